@@ -29,6 +29,12 @@ values do not touch the `path` and are not modelled; their one failure mode (las
 slots the cost model reads) is modelled through `SearchResult.costSlots`.
 Text-level parsing (the WKT grammar of the `wkt` crate, gzip, line splitting) is third-party: a file is modelled
 as the list of its rows, each row already classified as "parses to this linestring" or "rejected".
+Output serialisation is third-party as well and NOT in this model, with one exception: `RouteOut.wkt` carries the
+point list handed to `wkt_string()`, `Feature` the values handed to the `geojson` crate, the records the values
+handed to `serde`; what those crates print (number formatting included) is only compared by the harness after
+parsing it back.  The exception is WKB: the first-party hex encoder `geometry_to_wkb_string` is modelled on top of
+a transcription of `wkb::geom_to_wkb` v0.7.1 (byte layout, `f32 → f64` widening), so `RouteOut.wkb` also carries
+the exact string, which the harness compares textually.
 
 No imports beyond other Model files (linked into the driver).
 -/
@@ -174,6 +180,66 @@ def createTreeMultipoint (g : Geoms) : List Nat → Except Err (List Point)
         | .error x => .error x
         | .ok ps => .ok (p :: ps)
 
+/-! ### WKB text (`traversal_output_format::geometry_to_wkb_string`) -/
+
+/-- `n.to_le_bytes()` of a `k`-byte unsigned integer -/
+def leBytes : Nat → Nat → List Nat
+  | 0, _ => []
+  | k + 1, n => n % 256 :: leBytes k (n / 256)
+
+/-- `f32 as f64` (`Into<f64>`) on bit patterns: exact widening; zeros, subnormals and infinities included.
+NaN payloads are shifted like the hardware conversion of a quiet NaN (a coordinate read from a WKT table is never
+NaN: the parser rejects it). -/
+def widenF32 (b : Nat) : Nat :=
+  let sign := (b / 2 ^ 31) % 2
+  let e := (b / 2 ^ 23) % 256
+  let m := b % 2 ^ 23
+  if e == 255 then sign * 2 ^ 63 + 2047 * 2 ^ 52 + m * 2 ^ 29
+  else if e == 0 then
+    if m == 0 then sign * 2 ^ 63
+    else
+      -- subnormal `m · 2⁻¹⁴⁹`: normalise on the highest set bit `k`
+      let k := Nat.log2 m
+      sign * 2 ^ 63 + (k + 874) * 2 ^ 52 + (m - 2 ^ k) * 2 ^ (52 - k)
+  else sign * 2 ^ 63 + (e + 896) * 2 ^ 52 + m * 2 ^ 29
+
+/-- `wkb::write_many_points` (third party, v0.7.1): `u32` count, then `x`, `y` as little-endian doubles -/
+def wkbPoints (l : Line) : List Nat :=
+  leBytes 4 l.length ++ l.flatMap fun p => leBytes 8 (widenF32 p.x) ++ leBytes 8 (widenF32 p.y)
+
+/-- `wkb::geom_to_wkb(&Geometry::LineString(_))`: byte-order mark 1, type 2, the points -/
+def wkbLineString (l : Line) : List Nat := 1 :: (leBytes 4 2 ++ wkbPoints l)
+
+/-- `wkb::geom_to_wkb(&Geometry::MultiLineString(_))`: mark 1, type 5, member count, every member as a
+complete linestring record -/
+def wkbMultiLineString (ls : List Line) : List Nat :=
+  1 :: (leBytes 4 5 ++ leBytes 4 ls.length ++ ls.flatMap wkbLineString)
+
+/-- the two geometries the output formats hand to `wkb::geom_to_wkb` -/
+inductive WkbGeom where
+  | lineString (l : Line)
+  | multiLineString (ls : List Line)
+
+/-- `wkb::geom_to_wkb` (third party): fails only for `Rect` / `Triangle` geometries and on a failing writer,
+neither of which the output formats can produce (they write (Multi)LineStrings into a `Vec`) -/
+def geomToWkb : WkbGeom → Except Unit (List Nat)
+  | .lineString l => .ok (wkbLineString l)
+  | .multiLineString ls => .ok (wkbMultiLineString ls)
+
+/-- `{:02X?}` of one byte -/
+def hexUpperDigit (n : Nat) : Char := if n < 10 then Char.ofNat (48 + n) else Char.ofNat (55 + n)
+
+def hexChars : List Nat → List Char
+  | [] => []
+  | b :: r => hexUpperDigit (b / 16) :: hexUpperDigit (b % 16) :: hexChars r
+
+/-- `geometry_to_wkb_string` (first party): the bytes of `geom_to_wkb`, each as two upper-case hex digits, joined;
+a write error becomes `OutputPluginFailed` -/
+def geometryToWkbString (geom : WkbGeom) : Except Err String :=
+  match geomToWkb geom with
+  | .error _ => .error .failed
+  | .ok bytes => .ok (String.ofList (hexChars bytes))
+
 /-! ### TraversalOutputFormat -/
 
 /-- what `generate_route_output` returns, one constructor per format -/
@@ -186,8 +252,9 @@ inductive RouteOut where
   | features (fs : List Feature)
   /-- `wkt`: a `LINESTRING` -/
   | wkt (line : Line)
-  /-- `wkb`: the same linestring, hex WKB -/
-  | wkb (line : Line)
+  /-- `wkb`: `hex` is the string stored in the response (`geometry_to_wkb_string`); `line` is the linestring that
+  was handed to the encoder (kept so that the theorems can speak about the geometry without decoding) -/
+  | wkb (line : Line) (hex : String)
   deriving DecidableEq, Repr, Inhabited
 
 def generateRouteOutput (g : Geoms) (fmt : Fmt) (route : List EdgeTraversal) : Except Err RouteOut :=
@@ -199,7 +266,10 @@ def generateRouteOutput (g : Geoms) (fmt : Fmt) (route : List EdgeTraversal) : E
   | .wkb =>
     match createRouteLinestring g route with
     | .error x => .error x
-    | .ok l => .ok (.wkb l)
+    | .ok l =>
+      match geometryToWkbString (.lineString l) with
+      | .error x => .error x
+      | .ok s => .ok (.wkb l s)
   | .json => .ok (.records route)
   | .geoJson =>
     match featuresOf g route with
@@ -215,7 +285,8 @@ inductive TreeOut where
   | features (fs : List Feature)
   /-- `wkt`: a `MULTILINESTRING` -/
   | wkt (lines : List Line)
-  | wkb (lines : List Line)
+  /-- `wkb`: `hex` is the stored string, `lines` what was handed to the encoder -/
+  | wkb (lines : List Line) (hex : String)
   deriving DecidableEq, Repr, Inhabited
 
 def generateTreeOutput (g : Geoms) (fmt : Fmt) (t : Tree) : Except Err TreeOut :=
@@ -227,7 +298,10 @@ def generateTreeOutput (g : Geoms) (fmt : Fmt) (t : Tree) : Except Err TreeOut :
   | .wkb =>
     match createTreeMultilinestring g t with
     | .error x => .error x
-    | .ok ls => .ok (.wkb ls)
+    | .ok ls =>
+      match geometryToWkbString (.multiLineString ls) with
+      | .error x => .error x
+      | .ok s => .ok (.wkb ls s)
   | .json => .ok (.records t.values)
   | .geoJson =>
     match featuresOf g (t.values.map (·.et)) with
@@ -243,7 +317,7 @@ def RouteOut.edgeSeq? : RouteOut → Option (List Nat)
   | .records rs => some (rs.map (·.edge))
   | .features fs => some (fs.map (·.id))
   | .wkt _ => none
-  | .wkb _ => none
+  | .wkb _ _ => none
 
 /-- the route geometry an output shows, when the format shows one -/
 def RouteOut.geometry? : RouteOut → Option Line
@@ -251,7 +325,7 @@ def RouteOut.geometry? : RouteOut → Option Line
   | .records _ => none
   | .features fs => some (fs.map (·.geom)).flatten
   | .wkt l => some l
-  | .wkb l => some l
+  | .wkb l _ => some l
 
 /-- number of entries of a tree output -/
 def TreeOut.size : TreeOut → Nat
@@ -259,21 +333,21 @@ def TreeOut.size : TreeOut → Nat
   | .records bs => bs.length
   | .features fs => fs.length
   | .wkt ls => ls.length
-  | .wkb ls => ls.length
+  | .wkb ls _ => ls.length
 
 def TreeOut.edgeSeq? : TreeOut → Option (List Nat)
   | .edgeIds ids => some ids
   | .records bs => some (bs.map (·.et.edge))
   | .features fs => some (fs.map (·.id))
   | .wkt _ => none
-  | .wkb _ => none
+  | .wkb _ _ => none
 
 def TreeOut.lines? : TreeOut → Option (List Line)
   | .edgeIds _ => none
   | .records _ => none
   | .features fs => some (fs.map (·.geom))
   | .wkt ls => some ls
-  | .wkb ls => some ls
+  | .wkb ls _ => some ls
 
 /-! ### TraversalPlugin::process -/
 
@@ -527,15 +601,22 @@ inductive FileParam (α : Type) where
   | noSuchFile
   | file (f : TableFile α)
 
-/-- `get_config_serde_optional::<TraversalOutputFormat>`: an absent key is `None`; anything present must be one
-of the five names (JSON `null`, numbers and unknown names are deserialisation errors) -/
+/-- a variant name as serde resolves it: one of the five names, anything else is an "unknown variant" error -/
+def fmtOfName (s : String) : Except BuildErr (Option Fmt) :=
+  match Fmt.ofName? s with
+  | some f => .ok (some f)
+  | none => .error .serde
+
+/-- `get_config_serde_optional::<TraversalOutputFormat>` = `serde_json::from_value` on a derived, externally
+tagged enum of unit variants: an absent key is `None`; a present value must be one of the five names **as a
+string, or as the single-key object `{"<name>": null}`** (serde's map form of a unit variant; only JSON
+configuration or a direct `build(&Value)` call can write it, TOML has no `null`).  JSON `null`, numbers, arrays,
+objects with no or several keys, a non-`null` member and unknown names are deserialisation errors. -/
 def fmtParam (v : Option Json) : Except BuildErr (Option Fmt) :=
   match v with
   | none => .ok none
-  | some (.str s) =>
-    match Fmt.ofName? s with
-    | some f => .ok (some f)
-    | none => .error .serde
+  | some (.str s) => fmtOfName s
+  | some (.obj [(k, .null)]) => fmtOfName k
   | some _ => .error .serde
 
 def filePath {α : Type} : FileParam α → Except BuildErr (TableFile α)
